@@ -19,9 +19,11 @@ def sh(cmd, cwd=None, timeout=1200, env=None):
 
 
 def main(argv):
-    offset = 3
+    offset, prefix, rnd = 3, "/tmp/mut2-", "second"
+    if argv and argv[0] == "--round3":
+        offset, prefix, rnd, argv = 5, "/tmp/mut3-", "third", argv[1:]
     for pid in argv:
-        src = f"/tmp/mut2-{pid}-out"
+        src = f"{prefix}{pid}-out"
         for i in (1, 2, 3):
             if not os.path.isfile(f"{src}/m{i}.diff"):
                 continue
@@ -38,7 +40,7 @@ def main(argv):
             except Exception:  # noqa
                 meta = {}
             meta["property"] = pid
-            meta["origin"] = "sub-agent (second round) given only the property text and a scratch worktree"
+            meta["origin"] = f"sub-agent ({rnd} round) given only the property text and a scratch worktree"
             wt = f"/tmp/imp-{sid}"
             sh(f"git -C {REPO} worktree remove --force {wt}")
             rc, out = sh(f"git -C {REPO} worktree add --detach {wt} HEAD")
